@@ -243,7 +243,7 @@ CHECKS = {
         text="An independent PROV-JSON reader written in Lean from the specification (Prov/JsonSpec.lean; own tables, own name resolution) "
              "is executed on the text the library really emits (all json option sets) and must recover the source's strict content. "
              "Lean obligations T6: the transcribed spec tables equal the code's regenerated tables (t6_json_kind_keys, _ref_keys, "
-             "_time_keys, _literal_types, _attribute_ids); the spec reader inverts the writer on name-free values (c10_json_value_*). Record level (Props/C10R): c10_value_any (every value, any scope with the stated resolutions) and c10_record (from the writer's object the specification reader recovers exactly the record's (attribute URI, value) pairs, in order), with a concrete non-vacuity instance. PROV-XML value level (Props/C10X): c10x_int, c10x_bool, c10x_uri, c10x_float, c10x_datetime, c10x_str, c10x_qname, c10x_lang, c10x_typed, c10x_ref, c10x_time - the specification reader recovers the value from the child element the writer emits, both force_types settings.",
+             "_time_keys, _literal_types, _attribute_ids); the spec reader inverts the writer on name-free values (c10_json_value_*). Record level (Props/C10R): c10_value_any (every value, any scope with the stated resolutions) and c10_record (from the writer's object the specification reader recovers exactly the record's (attribute URI, value) pairs, in order), with a concrete non-vacuity instance. PROV-XML value level (Props/C10X): c10x_int, c10x_bool, c10x_uri, c10x_float, c10x_datetime, c10x_str, c10x_qname, c10x_lang, c10x_typed, c10x_ref, c10x_time - the specification reader recovers the value from the child element the writer emits, both force_types settings. Schema child order (Props/C10Y): c10x_schema_order - sorted_attributes emits children with non-decreasing schema ranks for every record kind. PROV-XML record level (Props/C10Z): c10x_record - the specification reader recovers type, identifier URI and exactly the pairs (consumed prov:type included) from the element the writer emits.",
         note=A_COMMON + " PROV-XML: Prov/XmlSpec.lean (element table, subtype elements, prov:id/prov:ref, xsi:type/xml:lang, schema child "
              "order check) run on the real XML for both force_types; obligations t6_xml_elements, _subtypes, _formal_order, _model_subtypes. "
              "The spec readers are hand transcriptions (trusted reading). Known finding C10-1 = C01-1.",
